@@ -44,15 +44,20 @@ class BatchEvaluator:
         cols = cols.copy()
         cols[failed, sc["nancol"] - 1] = np.nan
         self.table, self.target, self.calls = cols, target, 0
+        self.fail_perturbations_of = None
 
     def __call__(self, variables, context):
         self.calls += 1
+        perts = context.perturbations
         rows = []
         for x, r in zip(variables, context.realizations):
             b = int(round(x[0]))
             t = self.table[r] if b == self.target else np.roll(self.table, b + 1, axis=0)[r] * (b + 2) + 1.0
             rows.append(t)
         rows = np.array(rows)
+        if perts is not None and self.fail_perturbations_of is not None:
+            # every perturbation of one realization fails: the FUNCTION results of the same call must not notice
+            rows[(perts >= 0) & (context.realizations == self.fail_perturbations_of), 0] = np.nan
         return EvaluatorResult(objectives=rows[:, :2].copy(), constraints=rows[:, 2:].copy())
 
 
@@ -101,6 +106,16 @@ def drive(sc):
             pass   # another row of the batch legitimately ended the call
         else:
             trace.append(observe(sc, res[target] if res else None, outcome, "batch"))
+    # a combined function + gradient evaluation in which all perturbations of one successful realization fail
+    if sc.get("expect", "ok") == "ok":
+        ev = BatchEvaluator(sc, 0)
+        succ = [i for i in range(sc["R"]) if not sc["failed"][i]]
+        ev.fail_perturbations_of = succ[-1] if succ else None
+        res, outcome = outcome_of(lambda: ensemble_evaluator(build_config(sc), ev).calculate(
+            np.array([0.0, 0.0]), compute_functions=True, compute_gradients=True))
+        fr = next((x for x in (res or ()) if isinstance(x, FunctionResults)), None)
+        if outcome != "toofew":
+            trace.append(observe(sc, fr, outcome, "both"))
     # through a plan: FINISHED_EVALUATION event data of an evaluator step
     if sc.get("expect", "ok") == "ok":
         ev = BatchEvaluator(sc, 0)
